@@ -4858,7 +4858,9 @@ namespace awkward {
     else {
       const std::vector<ssize_t> shape(std::next(shape_.begin()), shape_.end());
       const std::vector<ssize_t> strides(std::next(strides_.begin()), strides_.end());
-      builder.beginlist();
+      if (include_beginendlist) {
+        builder.beginlist();
+      }
       for (int64_t i = 0;  i < length();  i++) {
         ssize_t byteoffset = byteoffset_ + strides_[0]*((ssize_t)i);
         NumpyArray numpy(Identities::none(),
@@ -4873,7 +4875,9 @@ namespace awkward {
                          ptr_lib_);
         numpy.tojson_boolean(builder, true);
       }
-      builder.endlist();
+      if (include_beginendlist) {
+        builder.endlist();
+      }
     }
   }
 
@@ -4901,7 +4905,9 @@ namespace awkward {
     else {
       const std::vector<ssize_t> shape(std::next(shape_.begin()), shape_.end());
       const std::vector<ssize_t> strides(std::next(strides_.begin()), strides_.end());
-      builder.beginlist();
+      if (include_beginendlist) {
+        builder.beginlist();
+      }
       for (int64_t i = 0;  i < length();  i++) {
         ssize_t byteoffset = byteoffset_ + strides_[0]*((ssize_t)i);
         NumpyArray numpy(Identities::none(),
@@ -4916,7 +4922,9 @@ namespace awkward {
                          ptr_lib_);
         numpy.tojson_integer<T>(builder, true);
       }
-      builder.endlist();
+      if (include_beginendlist) {
+        builder.endlist();
+      }
     }
   }
 
@@ -4944,7 +4952,9 @@ namespace awkward {
     else {
       const std::vector<ssize_t> shape(std::next(shape_.begin()), shape_.end());
       const std::vector<ssize_t> strides(std::next(strides_.begin()), strides_.end());
-      builder.beginlist();
+      if (include_beginendlist) {
+        builder.beginlist();
+      }
       for (int64_t i = 0;  i < length();  i++) {
         ssize_t byteoffset = byteoffset_ + strides_[0]*((ssize_t)i);
         NumpyArray numpy(Identities::none(),
@@ -4959,7 +4969,9 @@ namespace awkward {
                          ptr_lib_);
         numpy.tojson_real<T>(builder, true);
       }
-      builder.endlist();
+      if (include_beginendlist) {
+        builder.endlist();
+      }
     }
   }
 
@@ -4987,7 +4999,9 @@ namespace awkward {
     else {
       const std::vector<ssize_t> shape(std::next(shape_.begin()), shape_.end());
       const std::vector<ssize_t> strides(std::next(strides_.begin()), strides_.end());
-      builder.beginlist();
+      if (include_beginendlist) {
+        builder.beginlist();
+      }
       for (int64_t i = 0;  i < length();  i++) {
         ssize_t byteoffset = byteoffset_ + strides_[0]*((ssize_t)i);
         NumpyArray numpy(Identities::none(),
@@ -5002,7 +5016,9 @@ namespace awkward {
                          ptr_lib_);
         numpy.tojson_complex<T>(builder, true);
       }
-      builder.endlist();
+      if (include_beginendlist) {
+        builder.endlist();
+      }
     }
   }
 
@@ -5020,7 +5036,9 @@ namespace awkward {
     else {
       const std::vector<ssize_t> shape(std::next(shape_.begin()), shape_.end());
       const std::vector<ssize_t> strides(std::next(strides_.begin()), strides_.end());
-      builder.beginlist();
+      if (include_beginendlist) {
+        builder.beginlist();
+      }
       for (int64_t i = 0;  i < length();  i++) {
         ssize_t byteoffset = byteoffset_ + strides_[0]*((ssize_t)i);
         NumpyArray numpy(Identities::none(),
@@ -5035,7 +5053,9 @@ namespace awkward {
                          ptr_lib_);
         numpy.tojson_string(builder, true);
       }
-      builder.endlist();
+      if (include_beginendlist) {
+        builder.endlist();
+      }
     }
   }
 
